@@ -1,1 +1,804 @@
-fn main() {}
+//! SIM-C: randomness seam for batch commitment (C15, DESIGN.md section 7).
+use plonky2::field::types::PrimeField64;
+use plonky2::iop::witness::Witness;
+use plonky2::plonk::proof::{ProofWithPublicInputs, ProofWithPublicInputsTarget};
+use qpz_core::evidence::{Counters, Evidence};
+use qpz_core::rng::{mix, Rng};
+use qpz_core::{harness_error, Tier, EXIT_OK, EXIT_VIOLATION};
+use qpz_world::{max_total_output, prove_leaf, random_deposit, random_digest, Block};
+use serde::{Deserialize, Serialize};
+use serde_json::json;
+use std::cell::RefCell;
+use std::collections::{BTreeMap, HashSet};
+use std::rc::Rc;
+use wormhole_aggregator::common::utils::{canonical_leaf_verifier_data, canonical_private_batch_verifier_data};
+use wormhole_aggregator::private_batch::prover::PrivateBatchProver;
+use wormhole_aggregator::public_batch::prover::{PublicBatchInputs, PublicBatchProver};
+use wormhole_aggregator::verif_hooks;
+use wormhole_inputs::BytesDigest;
+use zk_circuits_common::circuit::{wormhole_private_batch_circuit_config, wormhole_public_batch_circuit_config, C, D, F};
+
+type Proof = ProofWithPublicInputs<F, C, D>;
+const QUICK_T: u64 = 6000;
+const QUICK_T_OWN: u64 = 600;
+const THOROUGH_T: u64 = 24_000;
+const THOROUGH_T_OWN: u64 = 3000;
+struct ReplayResult {
+    findings: Vec<Finding>,
+}
+const P: u64 = 0xFFFF_FFFF_0000_0001;
+
+#[derive(Clone, Copy, Debug, Serialize, Deserialize, PartialEq, Eq, Hash)]
+#[serde(rename_all = "snake_case")]
+enum Stream {
+    /// xoshiro from the seed
+    Good,
+    /// the first `j` 32-byte requests return all-ones limbs (>= p), then good
+    NonCanonicalFirst { j: u32 },
+    /// every byte is this constant
+    Stuck { byte: u8 },
+    /// the stream repeats with this period (bytes)
+    ShortCycle { period: u32 },
+    /// no provider installed: the code's own generator
+    OwnSource,
+}
+
+struct ProviderLog {
+    requests: Vec<usize>,
+    bytes: u64,
+    noncanonical_served: u32,
+}
+
+fn install_provider(stream: Stream, seed: u64) -> Rc<RefCell<ProviderLog>> {
+    let log = Rc::new(RefCell::new(ProviderLog { requests: vec![], bytes: 0, noncanonical_served: 0 }));
+    if stream == Stream::OwnSource {
+        verif_hooks::set_rng_provider(None);
+        return log;
+    }
+    let l2 = log.clone();
+    let mut rng = Rng::new(seed);
+    let mut cycle: Vec<u8> = vec![];
+    if let Stream::ShortCycle { period } = stream {
+        cycle = (0..period).map(|_| rng.below(256) as u8).collect();
+        // keep every 8-byte window canonical: clear high bits periodically
+        for (i, b) in cycle.iter_mut().enumerate() {
+            if i % 8 == 7 {
+                *b &= 0x7f;
+            }
+        }
+    }
+    let mut pos = 0usize;
+    verif_hooks::set_rng_provider(Some(Box::new(move |dest: &mut [u8]| {
+        let mut l = l2.borrow_mut();
+        l.requests.push(dest.len());
+        l.bytes += dest.len() as u64;
+        if l.requests.len() > 1_000_000 {
+            harness_error("RNG provider: more than a million requests in one commit (rejection sampling is spinning on a degenerate stream)");
+        }
+        match stream {
+            Stream::Good => rng.fill(dest),
+            Stream::NonCanonicalFirst { j } => {
+                if dest.len() == 32 && l.noncanonical_served < j {
+                    l.noncanonical_served += 1;
+                    for b in dest.iter_mut() {
+                        *b = 0xff;
+                    }
+                } else {
+                    rng.fill(dest)
+                }
+            }
+            // Degenerate streams are applied to the 32-byte preimage draws only: the shuffle's
+            // rejection sampling would spin forever on a constant stream, which is a property of
+            // the fault, not of the code under test.
+            Stream::Stuck { byte } => {
+                if dest.len() == 32 {
+                    for b in dest.iter_mut() {
+                        *b = byte;
+                    }
+                } else {
+                    rng.fill(dest)
+                }
+            }
+            Stream::ShortCycle { .. } => {
+                if dest.len() == 32 {
+                    for b in dest.iter_mut() {
+                        *b = cycle[pos % cycle.len()];
+                        pos += 1;
+                    }
+                } else {
+                    rng.fill(dest)
+                }
+            }
+            Stream::OwnSource => unreachable!(),
+        }
+    })));
+    log
+}
+
+/// What one committed private batch looks like, read back from the partial witness.
+#[derive(Clone, Debug, PartialEq, Eq)]
+struct Committed {
+    /// per slot: index of the supplied proof, or None for the template
+    slots: Vec<Option<usize>>,
+    /// per slot: the four preimage limbs
+    preimages: Vec<[u64; 4]>,
+}
+
+fn read_slot_pis<W: Witness<F>>(pw: &W, t: &ProofWithPublicInputsTarget<D>) -> Option<Vec<u64>> {
+    t.public_inputs.iter().map(|x| pw.try_get_target(*x).map(|f| f.to_canonical_u64())).collect()
+}
+
+fn read_cap0<W: Witness<F>>(pw: &W, t: &ProofWithPublicInputsTarget<D>) -> Option<Vec<u64>> {
+    t.proof.wires_cap.0.first()?.elements.iter().map(|x| pw.try_get_target(*x).map(|f| f.to_canonical_u64())).collect()
+}
+
+fn proof_pis(p: &Proof) -> Vec<u64> {
+    p.public_inputs.iter().map(|f| f.to_canonical_u64()).collect()
+}
+fn proof_cap0(p: &Proof) -> Vec<u64> {
+    p.proof.wires_cap.0[0].elements.iter().map(|f| f.to_canonical_u64()).collect()
+}
+
+#[derive(Clone, Debug, Serialize, Deserialize)]
+struct Finding {
+    class: String,
+    detail: String,
+    n: usize,
+    k: usize,
+    stream: Stream,
+    commit_seed: u64,
+}
+
+struct Fixture {
+    leaf_proofs: Vec<Proof>,
+    template: Proof,
+}
+
+fn chi2_crit(df: f64) -> f64 {
+    // Wilson-Hilferty upper quantile at p = 1e-9 (z = 5.9978); conservative (over-estimates) for small df
+    let z = 5.9978;
+    let a = 2.0 / (9.0 * df);
+    df * (1.0 - a + z * a.sqrt()).powi(3)
+}
+
+fn arrangement_index(slots: &[Option<usize>], k: usize) -> usize {
+    // mixed-radix index of (position of proof 0, position of proof 1, ...)
+    let n = slots.len();
+    let mut idx = 0usize;
+    for p in 0..k {
+        let pos = slots.iter().position(|s| *s == Some(p)).unwrap_or(0);
+        idx = idx * n + pos;
+    }
+    idx
+}
+
+fn num_arrangements(n: usize, k: usize) -> usize {
+    (0..k).map(|i| n - i).product()
+}
+
+struct ComboResult {
+    n: usize,
+    k: usize,
+    commits: u64,
+    findings: Vec<Finding>,
+    probes: Counters,
+    chi2: BTreeMap<String, (f64, f64, usize)>,
+    distinct_arrangements: usize,
+    sample: Option<serde_json::Value>,
+    hist: Vec<u64>,
+    marg: Vec<Vec<u64>>,
+    marg_own: Vec<Vec<u64>>,
+    arrangements: HashSet<usize>,
+}
+
+/// Pearson chi-square of `observed` against the uniform distribution; records the statistic and
+/// returns a finding when it exceeds the p = 1e-9 critical value (skipped below 20 expected per cell).
+fn chi_uniform(label: &str, observed: &[u64], n: usize, k: usize, stream: Stream, out: &mut BTreeMap<String, (f64, f64, usize)>) -> Option<Finding> {
+    let total: u64 = observed.iter().sum();
+    let ncell = observed.len();
+    if ncell < 2 || total == 0 {
+        return None;
+    }
+    let e = total as f64 / ncell as f64;
+    if e < 20.0 {
+        return None;
+    }
+    let x2: f64 = observed.iter().map(|o| (*o as f64 - e).powi(2) / e).sum();
+    let crit = chi2_crit((ncell - 1) as f64);
+    out.insert(label.to_string(), (x2, crit, ncell));
+    if x2 > crit {
+        return Some(Finding { class: "commit:non-uniform-shuffle".into(), detail: format!("{label}: chi2 = {x2:.1} over {ncell} cells ({total} commits) exceeds the p=1e-9 critical value {crit:.1}; counts {:?}", observed), n, k, stream, commit_seed: 0 });
+    }
+    None
+}
+
+/// All uniformity tests for one batch shape over merged counts.
+fn uniformity_tests(n: usize, k: usize, hist: &[u64], marg: &[Vec<u64>], marg_own: &[Vec<u64>], out: &mut BTreeMap<String, (f64, f64, usize)>) -> Vec<Finding> {
+    let mut f = vec![];
+    if n < 2 {
+        return f;
+    }
+    // only reachable arrangements: indices with pairwise distinct positions; the joint test needs
+    // a histogram small enough to be filled (skipped automatically below 20 expected per cell)
+    let valid: Vec<u64> = (0..hist.len())
+        .filter(|i| {
+            let mut pos = vec![];
+            let mut x = *i;
+            for _ in 0..k {
+                pos.push(x % n);
+                x /= n;
+            }
+            let u: HashSet<usize> = pos.iter().copied().collect();
+            u.len() == k
+        })
+        .map(|i| hist[i])
+        .collect();
+    f.extend(chi_uniform(&format!("arrangement N={n} k={k} (seeded stream)"), &valid, n, k, Stream::Good, out));
+    for (p, m) in marg.iter().enumerate() {
+        f.extend(chi_uniform(&format!("position of supplied proof {p}, N={n} k={k} (seeded stream)"), m, n, k, Stream::Good, out));
+    }
+    for (p, m) in marg_own.iter().enumerate() {
+        f.extend(chi_uniform(&format!("position of supplied proof {p}, N={n} k={k} (own entropy source)"), m, n, k, Stream::OwnSource, out));
+    }
+    f
+}
+
+/// Run all commits for one (N, k) on this thread with one built prover.
+fn run_combo(fx: &Fixture, n: usize, k: usize, t_first: u64, t_good: u64, t_own: u64, seed: u64, only: Option<(Stream, u64)>) -> ComboResult {
+    let leaf = canonical_leaf_verifier_data();
+    let mut prover = Some(PrivateBatchProver::new(wormhole_private_batch_circuit_config(), leaf.common.clone(), &leaf.verifier_only, n, fx.template.clone()).unwrap_or_else(|e| harness_error(&format!("cannot build the private-batch prover for N={n}: {e:#}"))));
+    let supplied: Vec<Proof> = fx.leaf_proofs[..k].to_vec();
+    let sup_pis: Vec<Vec<u64>> = supplied.iter().map(proof_pis).collect();
+    let sup_cap: Vec<Vec<u64>> = supplied.iter().map(proof_cap0).collect();
+    let tpl_pis = proof_pis(&fx.template);
+    let tpl_cap = proof_cap0(&fx.template);
+    let mut res = ComboResult { n, k, commits: 0, findings: vec![], probes: Counters::default(), chi2: BTreeMap::new(), distinct_arrangements: 0, sample: None, hist: vec![], marg: vec![], marg_own: vec![], arrangements: HashSet::new() };
+
+    let mut commit_once = |stream: Stream, cseed: u64, res: &mut ComboResult| -> Option<(Committed, u64, u32)> {
+        let mut p = prover.take().unwrap();
+        let targets = p.verif_targets().expect("prover is armed");
+        let log = install_provider(stream, cseed);
+        let committed = p.commit(supplied.clone());
+        verif_hooks::set_rng_provider(None);
+        let mut p = match committed {
+            Ok(p) => p,
+            Err(e) => harness_error(&format!("commit of {k} compatible real leaves into N={n} failed: {e:#}")),
+        };
+        res.commits += 1;
+        let pw = p.verif_partial_witness();
+        let mut slots = vec![];
+        let mut fail = |class: &str, detail: String, res: &mut ComboResult| {
+            res.findings.push(Finding { class: class.into(), detail, n, k, stream, commit_seed: cseed });
+        };
+        for (i, t) in targets.leaf_proofs.iter().enumerate() {
+            let (Some(v), Some(c)) = (read_slot_pis(pw, t), read_cap0(pw, t)) else {
+                fail("commit:slot-unset", format!("slot {i} has unset proof targets"), res);
+                slots.push(None);
+                continue;
+            };
+            let which = (0..k).find(|j| sup_pis[*j] == v && sup_cap[*j] == c);
+            if which.is_none() && !(v == tpl_pis && c == tpl_cap) {
+                fail("commit:foreign-slot-content", format!("slot {i} holds neither a supplied proof nor the validated template"), res);
+            }
+            slots.push(which);
+        }
+        let mut preimages = vec![];
+        for (i, t) in targets.dummy_nullifier_pre_images.iter().enumerate() {
+            let mut limbs = [0u64; 4];
+            for l in 0..4 {
+                match pw.try_get_target(t[l]) {
+                    Some(f) => limbs[l] = f.to_canonical_u64(),
+                    None => fail("commit:preimage-unset", format!("slot {i} limb {l} preimage target unset"), res),
+                }
+            }
+            preimages.push(limbs);
+        }
+        // 1. exactness (every stream)
+        let mut counts = vec![0usize; k];
+        let mut templates = 0usize;
+        for s in &slots {
+            match s {
+                Some(j) => counts[*j] += 1,
+                None => templates += 1,
+            }
+        }
+        if slots.len() != n || counts.iter().any(|c| *c != 1) || templates != n - k {
+            fail("commit:not-exactly-k-plus-padding", format!("slots {:?}: expected each of the {k} supplied proofs once and {} templates", slots, n - k), res);
+        }
+        let l = log.borrow();
+        let out = (Committed { slots, preimages }, l.bytes, l.noncanonical_served);
+        drop(l);
+        p.verif_rearm(targets);
+        prover = Some(p);
+        Some(out)
+    };
+
+    let streams_good: u64 = t_good;
+    let cells = num_arrangements(n, k);
+    let mut hist = vec![0u64; n.pow(k as u32).max(1)];
+    let mut marg = vec![vec![0u64; n]; k];
+    let mut seen_pre: HashSet<[u64; 4]> = HashSet::new();
+    let mut arrangements: HashSet<usize> = HashSet::new();
+
+    if let Some((stream, cseed)) = only {
+        // replay of one recorded commit
+        let _ = commit_once(stream, cseed, &mut res);
+        if stream == Stream::Good {
+            if let Some((a, _, _)) = commit_once(stream, cseed, &mut res) {
+                let _ = a;
+            }
+        }
+        return res;
+    }
+
+    // ---- good streams: exactness, seam closure, freshness, canonicity, uniformity ----
+    for t in t_first..t_first + streams_good {
+        let cseed = mix(seed, ((n as u64) << 40) | ((k as u64) << 32) | t);
+        let Some((c, bytes, _)) = commit_once(Stream::Good, cseed, &mut res) else { continue };
+        if res.sample.is_none() {
+            res.sample = Some(json!({"n": n, "k": k, "commit_seed": cseed, "slot_order": c.slots, "preimages": c.preimages, "rng_bytes_consumed": bytes}));
+        }
+        // canonicity
+        if c.preimages.iter().flatten().any(|l| *l >= P) {
+            res.findings.push(Finding { class: "commit:non-canonical-preimage".into(), detail: format!("preimages {:?}", c.preimages), n, k, stream: Stream::Good, commit_seed: cseed });
+        }
+        // freshness / independence
+        let limbs: Vec<u64> = c.preimages.iter().flatten().copied().collect();
+        let uniq: HashSet<u64> = limbs.iter().copied().collect();
+        if uniq.len() != limbs.len() {
+            res.findings.push(Finding { class: "commit:preimage-limbs-repeat".into(), detail: format!("the {} preimage limbs of one commit are not pairwise distinct: {:?}", limbs.len(), c.preimages), n, k, stream: Stream::Good, commit_seed: cseed });
+        }
+        for pr in &c.preimages {
+            if !seen_pre.insert(*pr) {
+                res.findings.push(Finding { class: "commit:preimage-reused-across-commits".into(), detail: format!("preimage {:?} already appeared in an earlier commit (different seed)", pr), n, k, stream: Stream::Good, commit_seed: cseed });
+            }
+        }
+        if bytes < 32 * n as u64 {
+            res.findings.push(Finding { class: "commit:too-little-randomness".into(), detail: format!("one commit consumed {bytes} bytes of randomness; {n} independent 32-byte preimages need at least {}", 32 * n), n, k, stream: Stream::Good, commit_seed: cseed });
+        }
+        // seam closure: same seed => identical order and preimages (first 40 commits)
+        if t - t_first < 20 {
+            if let Some((c2, _, _)) = commit_once(Stream::Good, cseed, &mut res) {
+                if c2 != c {
+                    res.findings.push(Finding { class: "commit:randomness-outside-the-seam".into(), detail: "two commits with the same inputs and the same seeded stream differ".into(), n, k, stream: Stream::Good, commit_seed: cseed });
+                }
+                res.probes.inc("seam_closure_checked");
+            }
+        }
+        let a = arrangement_index(&c.slots, k);
+        hist[a] += 1;
+        arrangements.insert(a);
+        for p in 0..k {
+            if let Some(pos) = c.slots.iter().position(|s| *s == Some(p)) {
+                marg[p][pos] += 1;
+            }
+        }
+        if res.findings.len() > 5 {
+            return res;
+        }
+    }
+    res.distinct_arrangements = arrangements.len();
+    res.arrangements = arrangements;
+    res.hist = hist;
+    res.marg = marg;
+    // ---- faulted streams: exactness and canonicity must survive ----
+    let faulted = [Stream::NonCanonicalFirst { j: 1 }, Stream::NonCanonicalFirst { j: 3 }, Stream::NonCanonicalFirst { j: 2 * n as u32 + 1 }, Stream::Stuck { byte: 0 }, Stream::Stuck { byte: 0x5a }, Stream::ShortCycle { period: 8 }, Stream::ShortCycle { period: 24 }];
+    for (fi, st) in faulted.iter().enumerate() {
+        if t_first != 0 {
+            break;
+        }
+        for rep in 0..4u64 {
+            let cseed = mix(seed, 0xFA00_0000 + ((n as u64) << 20) + ((k as u64) << 12) + (fi as u64) * 16 + rep);
+            if std::env::var("VERIF_C15_DEBUG").is_ok() {
+                eprintln!("N={n} k={k} stream {:?} rep {rep}", st);
+            }
+            let Some((c, _, served)) = commit_once(*st, cseed, &mut res) else { continue };
+            res.probes.inc(&format!("faulted_stream_{}", match st { Stream::NonCanonicalFirst { .. } => "non_canonical_first", Stream::Stuck { .. } => "stuck", Stream::ShortCycle { .. } => "short_cycle", _ => "other" }));
+            if c.preimages.iter().flatten().any(|l| *l >= P) {
+                res.findings.push(Finding { class: "commit:non-canonical-preimage".into(), detail: format!("preimages {:?}", c.preimages), n, k, stream: *st, commit_seed: cseed });
+            }
+            if let Stream::NonCanonicalFirst { j } = st {
+                if served > 0 {
+                    res.probes.add("rejection_loop_iterated", served as u64);
+                }
+                // the all-ones value must never reach a slot
+                if c.preimages.iter().any(|p| p.iter().all(|l| *l == u64::MAX % P)) {
+                    res.findings.push(Finding { class: "commit:non-canonical-preimage".into(), detail: "an all-ones draw was reduced into a preimage instead of being rejected".into(), n, k, stream: *st, commit_seed: cseed });
+                }
+                let _ = j;
+            }
+        }
+    }
+
+    // ---- own-source runs: the shipped entropy source, not masked by the provider ----
+    if t_own > 0 {
+        let mut hist_o = vec![vec![0u64; n]; k];
+        let mut seen_o: HashSet<[u64; 4]> = HashSet::new();
+        let mut prev: Option<Committed> = None;
+        for t in 0..t_own {
+            let Some((c, _, _)) = commit_once(Stream::OwnSource, t, &mut res) else { continue };
+            res.probes.inc("own_source_commit");
+            if c.preimages.iter().flatten().any(|l| *l >= P) {
+                res.findings.push(Finding { class: "commit:non-canonical-preimage".into(), detail: format!("preimages {:?}", c.preimages), n, k, stream: Stream::OwnSource, commit_seed: t });
+            }
+            let limbs: Vec<u64> = c.preimages.iter().flatten().copied().collect();
+            let uniq: HashSet<u64> = limbs.iter().copied().collect();
+            if uniq.len() != limbs.len() {
+                res.findings.push(Finding { class: "commit:preimage-limbs-repeat".into(), detail: format!("own source: limbs of one commit repeat: {:?}", c.preimages), n, k, stream: Stream::OwnSource, commit_seed: t });
+            }
+            for pr in &c.preimages {
+                if !seen_o.insert(*pr) {
+                    res.findings.push(Finding { class: "commit:preimage-reused-across-commits".into(), detail: format!("own source: preimage {:?} repeated across commits (constant-seeded or re-seeded generator?)", pr), n, k, stream: Stream::OwnSource, commit_seed: t });
+                }
+            }
+            if let Some(p) = &prev {
+                if p.preimages == c.preimages {
+                    res.findings.push(Finding { class: "commit:preimage-reused-across-commits".into(), detail: "own source: two consecutive commits carry identical preimages".into(), n, k, stream: Stream::OwnSource, commit_seed: t });
+                }
+            }
+            for p in 0..k {
+                if let Some(pos) = c.slots.iter().position(|s| *s == Some(p)) {
+                    hist_o[p][pos] += 1;
+                }
+            }
+            prev = Some(c);
+            if res.findings.len() > 5 {
+                return res;
+            }
+        }
+        res.marg_own = hist_o;
+    }
+    res
+}
+
+/// Public batch: supplied inner proofs in the given order, then templates (no randomness).
+fn run_public(fxp: &PublicFixture, m: usize, findings: &mut Vec<Finding>, probes: &mut Counters, rng: &mut Rng, reps: usize) -> u64 {
+    let leaf = canonical_leaf_verifier_data();
+    let pb = canonical_private_batch_verifier_data(&leaf, 1).unwrap();
+    let mut prover = Some(PublicBatchProver::new(wormhole_public_batch_circuit_config(), pb.common.clone(), &pb.verifier_only, m, 1, fxp.template.clone()).unwrap_or_else(|e| harness_error(&format!("cannot build the public-batch prover for M={m}: {e:#}"))));
+    let tpl = (proof_pis(&fxp.template), proof_cap0(&fxp.template));
+    let mut commits = 0u64;
+    for k in 1..=m {
+        for _ in 0..reps {
+            // a random ordered selection of k distinct inner proofs
+            let mut idx: Vec<usize> = (0..fxp.inners.len()).collect();
+            rng.shuffle(&mut idx);
+            idx.truncate(k);
+            let proofs: Vec<Proof> = idx.iter().map(|i| fxp.inners[*i].clone()).collect();
+            let mut p = prover.take().unwrap();
+            let targets = p.verif_targets().expect("armed");
+            let mut p2 = match p.commit(PublicBatchInputs { proofs: proofs.clone(), aggregator_address: BytesDigest::try_from([9u8; 32]).unwrap() }) {
+                Ok(x) => x,
+                Err(e) => harness_error(&format!("public commit of {k} compatible inner proofs into M={m} failed: {e:#}")),
+            };
+            commits += 1;
+            let pw = p2.verif_partial_witness();
+            for (i, t) in targets.private_batch_proofs.iter().enumerate() {
+                let got = (read_slot_pis(pw, t), read_cap0(pw, t));
+                let want = if i < k { (proof_pis(&proofs[i]), proof_cap0(&proofs[i])) } else { tpl.clone() };
+                if got != (Some(want.0), Some(want.1)) {
+                    findings.push(Finding { class: "commit:public-batch-order".into(), detail: format!("M={m} k={k}: slot {i} does not hold {}", if i < k { "the supplied inner proof of that position" } else { "the dummy template" }), n: m, k, stream: Stream::Good, commit_seed: 0 });
+                }
+            }
+            probes.inc("public_commit_checked");
+            p2.verif_rearm(targets);
+            p = p2;
+            prover = Some(p);
+        }
+    }
+    commits
+}
+
+/// Silence the builder's progress output while it runs in-process.
+struct Gag(i32);
+impl Gag {
+    fn new() -> Gag {
+        use std::io::Write;
+        let _ = std::io::stdout().flush();
+        let saved = unsafe { libc_dup(1) };
+        unsafe {
+            let devnull = libc_open(b"/dev/null\0".as_ptr() as *const i8, 1);
+            libc_dup2(devnull, 1);
+            libc_close(devnull);
+        }
+        Gag(saved)
+    }
+}
+impl Drop for Gag {
+    fn drop(&mut self) {
+        use std::io::Write;
+        let _ = std::io::stdout().flush();
+        unsafe {
+            libc_dup2(self.0, 1);
+            libc_close(self.0);
+        }
+    }
+}
+extern "C" {
+    #[link_name = "dup"]
+    fn libc_dup(fd: i32) -> i32;
+    #[link_name = "dup2"]
+    fn libc_dup2(a: i32, b: i32) -> i32;
+    #[link_name = "close"]
+    fn libc_close(fd: i32) -> i32;
+    #[link_name = "open"]
+    fn libc_open(p: *const i8, flags: i32, ...) -> i32;
+}
+
+struct ShapeResult {
+    n: usize,
+    k: usize,
+    commits: u64,
+    findings: Vec<Finding>,
+    probes: Counters,
+    chi2: BTreeMap<String, (f64, f64, usize)>,
+    distinct_arrangements: usize,
+    sample: Option<serde_json::Value>,
+}
+
+/// All commits of one batch shape, split over `chunks` threads (each builds its own prover);
+/// counts are merged before the uniformity tests, so the result does not depend on the split.
+fn run_shape(fx: &Fixture, n: usize, k: usize, t_good: u64, t_own: u64, seed: u64, chunks: u64) -> ShapeResult {
+    let per = t_good.div_ceil(chunks.max(1));
+    let parts: Vec<ComboResult> = std::thread::scope(|s| {
+        let hs: Vec<_> = (0..chunks.max(1)).map(|c| s.spawn(move || run_combo(fx, n, k, c * per, per.min(t_good.saturating_sub(c * per)), if c == 0 { t_own } else { 0 }, seed, None))).collect();
+        hs.into_iter().map(|h| h.join().unwrap_or_else(|_| harness_error("a commit worker panicked"))).collect()
+    });
+    let mut out = ShapeResult { n, k, commits: 0, findings: vec![], probes: Counters::default(), chi2: BTreeMap::new(), distinct_arrangements: 0, sample: None };
+    let mut hist: Vec<u64> = vec![];
+    let mut marg: Vec<Vec<u64>> = vec![];
+    let mut marg_own: Vec<Vec<u64>> = vec![];
+    let mut arr: HashSet<usize> = HashSet::new();
+    let add = |a: &mut Vec<u64>, b: &[u64]| {
+        if a.len() < b.len() {
+            a.resize(b.len(), 0);
+        }
+        for (x, y) in a.iter_mut().zip(b) {
+            *x += *y;
+        }
+    };
+    for p in parts {
+        out.commits += p.commits;
+        out.findings.extend(p.findings);
+        out.probes.merge(&p.probes);
+        if out.sample.is_none() {
+            out.sample = p.sample;
+        }
+        add(&mut hist, &p.hist);
+        for (i, m) in p.marg.iter().enumerate() {
+            if marg.len() <= i {
+                marg.push(vec![]);
+            }
+            add(&mut marg[i], m);
+        }
+        for (i, m) in p.marg_own.iter().enumerate() {
+            if marg_own.len() <= i {
+                marg_own.push(vec![]);
+            }
+            add(&mut marg_own[i], m);
+        }
+        arr.extend(p.arrangements);
+    }
+    out.distinct_arrangements = arr.len();
+    let f = uniformity_tests(n, k, &hist, &marg, &marg_own, &mut out.chi2);
+    out.findings.extend(f);
+    out
+}
+
+fn chunks_for(n: usize) -> u64 {
+    n.min(4) as u64
+}
+
+struct PublicFixture {
+    inners: Vec<Proof>,
+    template: Proof,
+}
+
+#[derive(Serialize, Deserialize)]
+struct ReplayFile {
+    property: String,
+    sim: String,
+    seed: u64,
+    finding: Finding,
+    note: String,
+}
+
+fn build_fixture(seed: u64, max_k: usize) -> (Fixture, Block) {
+    let mut rng = Rng::new(mix(seed, 0xF1C5));
+    let deposits = (0..max_k.max(2) + 1).map(|_| random_deposit(&mut rng, 0)).collect();
+    let block = Block::new(deposits, 11, &mut rng);
+    let fee = 10;
+    let inputs: Vec<_> = (0..max_k).map(|i| {
+        let total = max_total_output(block.deposits[i].input_amount, fee);
+        block.spend(i, total / 3 + i as u32, total / 5, fee, random_digest(&mut rng), random_digest(&mut rng))
+    }).collect();
+    let leaf_proofs: Vec<Proof> = std::thread::scope(|s| {
+        let hs: Vec<_> = inputs.iter().map(|inp| s.spawn(move || prove_leaf(inp).unwrap_or_else(|e| harness_error(&format!("cannot prove a real leaf: {e:#}"))))).collect();
+        hs.into_iter().map(|h| h.join().unwrap()).collect()
+    });
+    let template = prove_leaf(&qpz_world::dummy_inputs().unwrap()).unwrap_or_else(|e| harness_error(&format!("cannot prove the dummy template: {e:#}")));
+    (Fixture { leaf_proofs, template }, block)
+}
+
+fn main() {
+    let args: Vec<String> = std::env::args().collect();
+    let mut tier_arg = None;
+    let mut replay: Option<String> = None;
+    let mut i = 1;
+    while i < args.len() {
+        match args[i].as_str() {
+            "--property" => i += 1,
+            "--tier" => { tier_arg = Some(args[i + 1].clone()); i += 1; }
+            "--replay" => { replay = Some(args[i + 1].clone()); i += 1; }
+            other => harness_error(&format!("unknown argument {other}")),
+        }
+        i += 1;
+    }
+    let seed = qpz_core::seed_from_env();
+    let tier = Tier::from_env_or(tier_arg.as_deref());
+    println!("VERIF_SEED={seed} property=C15 tier={} sim=rng", tier.as_str());
+    let t0 = qpz_core::real_now_ns();
+    let quick = tier == Tier::Quick;
+    let max_n = if quick { 3 } else { 4 };
+    let (fx, _block) = build_fixture(seed, max_n.max(4));
+
+    // seam self-test: with a provider installed the hooks must draw from it, without one they must not
+    {
+        let log = install_provider(Stream::Good, 1);
+        let leaf = canonical_leaf_verifier_data();
+        let p = PrivateBatchProver::new(wormhole_private_batch_circuit_config(), leaf.common.clone(), &leaf.verifier_only, 2, fx.template.clone()).unwrap_or_else(|e| harness_error(&format!("cannot build prover: {e:#}")));
+        let _ = p.commit(vec![fx.leaf_proofs[0].clone()]).unwrap_or_else(|e| harness_error(&format!("self-test commit failed: {e:#}")));
+        verif_hooks::set_rng_provider(None);
+        if log.borrow().bytes == 0 {
+            harness_error("RNG seam self-test: a commit with N=2 drew nothing from the installed provider (hook dead?)");
+        }
+    }
+
+    if let Some(path) = replay {
+        let rf: ReplayFile = serde_json::from_str(&std::fs::read_to_string(&path).unwrap_or_else(|e| harness_error(&format!("cannot read {path}: {e}")))).unwrap_or_else(|e| harness_error(&format!("bad replay file: {e}")));
+        let f = &rf.finding;
+        let res = if f.class == "commit:non-uniform-shuffle" || f.stream == Stream::OwnSource || f.class.contains("across-commits") {
+            // batch-level findings: re-run the whole (N,k) batch with the recorded seed
+            let (tg, to) = if quick { (QUICK_T, QUICK_T_OWN) } else { (THOROUGH_T, THOROUGH_T_OWN) };
+            run_shape(&fx, f.n, f.k, tg, to, rf.seed, chunks_for(f.n)).findings
+        } else {
+            run_combo(&fx, f.n, f.k, 0, 0, 0, rf.seed, Some((f.stream, f.commit_seed))).findings
+        };
+        let res = ReplayResult { findings: res };
+        for x in &res.findings {
+            println!("replayed: class={} {}", x.class, x.detail);
+        }
+        if res.findings.iter().any(|x| x.class == f.class) || !res.findings.is_empty() {
+            println!("VIOLATION property=C15 replay={path}");
+            std::process::exit(EXIT_VIOLATION);
+        }
+        println!("replay: no violation on this tree");
+        std::process::exit(EXIT_OK);
+    }
+
+    // (N, k) combos, split into chunks so every core has work; each chunk builds its own prover
+    let t_good: u64 = std::env::var("VERIF_C15_T").ok().and_then(|s| s.parse().ok()).unwrap_or(if quick { QUICK_T } else { THOROUGH_T });
+    let t_own: u64 = if quick { QUICK_T_OWN } else { THOROUGH_T_OWN };
+    let mut jobs: Vec<(usize, usize)> = vec![];
+    for n in 1..=max_n {
+        for k in 1..=n {
+            jobs.push((n, k));
+        }
+    }
+    if !quick {
+        jobs.push((8, 3)); // marginal tests only (cells too many for the joint test at this T)
+    }
+    let results: Vec<ShapeResult> = std::thread::scope(|s| {
+        let hs: Vec<_> = jobs.iter().map(|(n, k)| { let fx = &fx; s.spawn(move || run_shape(fx, *n, *k, t_good, t_own, seed, chunks_for(*n))) }).collect();
+        hs.into_iter().map(|h| h.join().unwrap_or_else(|_| harness_error("a commit worker panicked"))).collect()
+    });
+
+    // public batch
+    let mut findings: Vec<Finding> = vec![];
+    let mut probes = Counters::default();
+    let mut public_commits = 0u64;
+    {
+        let leaf = canonical_leaf_verifier_data();
+        let max_m = if quick { 2 } else { 3 };
+        let inners: Vec<Proof> = std::thread::scope(|s| {
+            let hs: Vec<_> = (0..max_m).map(|i| { let fx = &fx; let leaf = &leaf; s.spawn(move || {
+                let p = PrivateBatchProver::new(wormhole_private_batch_circuit_config(), leaf.common.clone(), &leaf.verifier_only, 1, fx.template.clone()).unwrap();
+                p.commit(vec![fx.leaf_proofs[i].clone()]).and_then(|c| c.prove()).unwrap_or_else(|e| harness_error(&format!("cannot prove an inner private batch: {e:#}")))
+            }) }).collect();
+            hs.into_iter().map(|h| h.join().unwrap()).collect()
+        });
+        // template: all-dummy private batch, built the way the builder does it is private; use a commit-free path:
+        // the public prover only needs a validated template, which the reference builder generates. Here: prove an
+        // all-dummy batch through the private-batch circuit directly.
+        // the validated all-dummy private-batch template, as the real builder generates it
+        let template = {
+            let dir = std::path::PathBuf::from(format!("/dev/shm/qpz-rng-{}", std::process::id()));
+            let _ = std::fs::remove_dir_all(&dir);
+            let gag = Gag::new();
+            let r = circuit_builder::generate_all_circuit_binaries(dir.join("bins"), true, 1, None);
+            drop(gag);
+            r.unwrap_or_else(|e| harness_error(&format!("the unchanged builder failed to generate (1,-): {e:#}")));
+            let pb = canonical_private_batch_verifier_data(&leaf, 1).unwrap();
+            let bytes = std::fs::read(dir.join("bins/dummy_private_batch_proof.bin")).unwrap();
+            let _ = std::fs::remove_dir_all(&dir);
+            Proof::from_bytes(bytes, &pb.common).unwrap_or_else(|e| harness_error(&format!("generated template does not parse: {e}")))
+        };
+        let fxp = PublicFixture { inners, template };
+        let mut rng = Rng::new(mix(seed, 0x9B));
+        for m in 1..=max_m {
+            public_commits += run_public(&fxp, m, &mut findings, &mut probes, &mut rng, if quick { 6 } else { 40 });
+        }
+    }
+
+    let mut commits = public_commits;
+    let mut chi = serde_json::Map::new();
+    let mut samples = vec![];
+    let mut distinct = 0u64;
+    for r in &results {
+        commits += r.commits;
+        findings.extend(r.findings.iter().cloned());
+        probes.merge(&r.probes);
+        distinct += r.distinct_arrangements as u64;
+        for (k, (x2, crit, cells)) in &r.chi2 {
+            chi.insert(k.clone(), json!({"chi2": (x2 * 10.0).round() / 10.0, "critical_p1e-9": (crit * 10.0).round() / 10.0, "cells": cells}));
+        }
+        if let Some(s) = &r.sample {
+            if samples.len() < 3 {
+                samples.push(s.clone());
+            }
+        }
+        let _ = (r.n, r.k);
+    }
+    let wall = (qpz_core::real_now_ns() - t0) as f64 / 1e9;
+    let mut exit = EXIT_OK;
+    let mut replay_path = String::new();
+    if let Some(f) = findings.first() {
+        let rf = ReplayFile { property: "C15".into(), sim: "rng".into(), seed, finding: f.clone(), note: "per-commit findings replay that single commit from (stream, commit_seed); batch-level findings (uniformity, reuse across commits, own-source) re-run the (N,k) batch with this VERIF_SEED".into() };
+        replay_path = format!("{}/C15-{}.json", qpz_core::replay_dir(), qpz_core::rng::hash_str(&serde_json::to_string(&rf.finding).unwrap()));
+        std::fs::write(&replay_path, serde_json::to_string_pretty(&rf).unwrap()).unwrap();
+        println!("violation class={} N={} k={} stream={:?}: {}", f.class, f.n, f.k, f.stream, f.detail);
+        println!("VIOLATION property=C15 replay={replay_path}");
+        exit = EXIT_VIOLATION;
+    }
+    if probes.get("rejection_loop_iterated") == 0 && exit == EXIT_OK {
+        // the non-canonical-first streams must have driven the rejection loop
+        harness_error("reach probe 'rejection_loop_iterated' is zero: the non-canonical stream never reached the preimage generator");
+    }
+    let mut extra = serde_json::Map::new();
+    extra.insert("commits".into(), json!(commits));
+    extra.insert("runs_per_hour".into(), json!((commits as f64 / wall * 3600.0).round()));
+    extra.insert("batch_shapes".into(), json!(jobs));
+    extra.insert("chi_square_tests".into(), serde_json::Value::Object(chi));
+    extra.insert("reach_probes".into(), probes.to_json());
+    extra.insert("faults_fired".into(), json!({"non_canonical_first": probes.get("faulted_stream_non_canonical_first"), "stuck_at_constant": probes.get("faulted_stream_stuck"), "short_cycle": probes.get("faulted_stream_short_cycle")}));
+    extra.insert("simulated_time".into(), json!("not applicable: commit has no timers"));
+    extra.insert("components".into(), json!({
+        "real": ["PrivateBatchProver::commit, generate_random_nullifier_preimage, fill_private_batch_witness", "PublicBatchProver::commit, fill_public_batch_witness", "canonical leaf / private-batch / public-batch circuits", "real leaf proofs and real private-batch proofs"],
+        "stub": [],
+        "simulated": ["process randomness at the two thread_rng sites (guarded wrapper: seeded and faulted byte streams); own-source runs use the code's own generator"]
+    }));
+    if !replay_path.is_empty() {
+        extra.insert("replay".into(), json!(replay_path));
+    }
+    let ev = Evidence {
+        property_id: "C15".into(),
+        tier: tier.as_str().into(),
+        seed,
+        level: "exploration".into(),
+        evaluations: commits,
+        distinct_nontrivial: distinct,
+        rule: "one evaluation = one commit of k real leaf proofs into an N-slot private batch (or k inner proofs into an M-slot public batch) under a seeded, faulted or own-source random stream, with the committed partial witness read back; distinct_nontrivial = number of distinct slot arrangements of the supplied proofs observed, summed over batch shapes (every one differs from the input order or contains padding)".into(),
+        samples,
+        exhaustive: None,
+        extra,
+        assumptions: vec![
+            "uniformity is a statistical statement: Pearson chi-square at p = 1e-9 over the arrangement histogram (and per-proof position marginals); own-source runs use real entropy and are the only part that is not a function of VERIF_SEED".into(),
+            "stack copies of preimages and the quality of the operating system's entropy are outside this check".into(),
+        ],
+        wall_s: wall,
+        violations: if exit == EXIT_OK { 0 } else { 1 },
+    };
+    ev.write(&qpz_core::evidence_path("C15")).unwrap_or_else(|e| harness_error(&format!("cannot write evidence: {e}")));
+    println!("C15: commits={commits} arrangements={distinct} findings={} wall={wall:.1}s", findings.len());
+    std::process::exit(exit);
+}
